@@ -60,3 +60,8 @@ Fixpoint insert_css (n : nat) (c : nat * nat * list nat) (l : list (nat * nat * 
   end.
 Definition css_chunks (g : cgraph) (ents : list nat) : list (nat * nat * list nat) :=
   fold_right (insert_css (length ents)) [] (css_chunks_unsorted g ents).
+
+(* well-formedness of the CSS-side dump: record targets and stub indices are file indices *)
+Definition wf_cgraphb (g : cgraph) : bool :=
+  forallb (fun f => forallb (fun t => (t <? length g)%nat) (cf_recs f) &&
+                    match cf_stub f with Some c => (c <? length g)%nat | None => true end) g.
